@@ -220,6 +220,12 @@ func (g *gen) float32Exact() float64 {
 }
 
 func (g *gen) whenSeconds() time.Time {
+	switch g.r.Intn(16) {
+	case 0:
+		return time.Time{} // Go's zero time is an ordinary timestamp for PostgreSQL (0001-01-01)
+	case 1:
+		return time.Date(1899, 12, 31, 23, 59, 59, 0, time.UTC) // before the Unix epoch
+	}
 	return time.Unix(int64(g.r.Intn(1<<31)), 0).UTC()
 }
 
